@@ -35,7 +35,7 @@ def _write_extended_field_value(value):
         return (value, b"")
     elif value >= 13 and value < 269:
         return (13, (value - 13).to_bytes(1, "big"))
-    elif value >= 269 and value < 65804:
+    elif value >= 269 and value < 65805:
         return (14, (value - 269).to_bytes(2, "big"))
     else:
         raise ValueError("Value out of range.")
